@@ -8,3 +8,36 @@ package rsyncd
 //@   requires [args] len(pc.RemainingArgs) >= 1
 //@   nullable module
 //@   modifies *
+//@   allows[C07] pathwrite(p) if module == nil || module.Writable
+//@   allows[C07] fswrite(h) if module == nil || module.Writable
+//@   allows[C06] srcread(h)
+//@   allows[C06] fsread(h) if isSourceFS(h)
+//@   allows[C06] pathread(p) if module == nil || p == module.Path
+
+// ---------------------------------------------------------------- effects
+//@ spec func destPath(module: *rsyncd.Module, paths: []string): Str = ite(module == nil, paths[0], module.Path)
+//@ spec func underDest(h: int, d: Str): bool = rootPath(h) == d || rootPath(rootParent(h)) == d
+
+// C05: a receiving daemon session only creates/opens its destination
+//      directory and then works through roots opened on it.
+// C07: no write effect at all unless the module is writable (command-mode
+//      servers have no module and are outside C07).
+//@ func (*rsyncd.Server).handleConnReceiver
+//@   nullable module
+//@   allows[C05] pathwrite(p) if p == destPath(module, paths)
+//@   allows[C05] pathread(p) if p == destPath(module, paths)
+//@   allows[C05] fswrite(h) if underDest(h, destPath(module, paths))
+//@   allows[C05] fsread(h) if underDest(h, destPath(module, paths))
+//@   allows[C07] pathwrite(p) if module == nil || module.Writable
+//@   allows[C07] fswrite(h) if module == nil || module.Writable
+
+//@ func (*rsyncd.Server).handleConnSender
+//@   nullable module
+//@   allows[C06] srcread(h)
+//@   allows[C06] fsread(h) if isSourceFS(h)
+//@   allows[C06] pathread(p) if module == nil || p == module.Path
+//@   allows[C10] filedata if opts.dry_run == 0
+
+//@ func rsyncd.validateModule
+//@   pure
+//@   ensures [fs-readonly] err == nil ==> (mod.FS != nil ==> !mod.Writable)
